@@ -439,6 +439,50 @@ def cli_case(case, env):
             env.viol("C08:multiline-empty-files:blocks-differ-from-single-threaded", bad,
                      {"kind": "cli", "seed": case["seed"], "argv": uargs + ["-j%d" % n, "t3"],
                       "single": esc(uref[1][:1500]), "multi": esc(ugot[1][:1500])})
+    # files named on the command line next to directories that are walked,
+    # some of them with NUL bytes: a named file is searched in another binary
+    # detection mode than a file found by the walk, each worker switches mode
+    # from file to file, and which worker gets which root is up to the schedule
+    t4 = os.path.join(env.tmp, "t4")
+    os.makedirs(os.path.join(t4, "sub"))
+    named = []
+    for i in range(rng.range(5, 12)):
+        kind = rng.below(4)
+        text = b"".join(b"%s %d in file %d\n" % (rng.pick(WORDS).encode(), j, i) for j in range(rng.range(1, 12)))
+        if kind == 1:
+            text = b"head\0tail\n" + text + b"needle after the NUL in file %d\n" % i
+        elif kind == 2:
+            text = b"needle before the NUL in file %d\n" % i + text + b"x\0y\nneedle after it\n"
+        where = rng.below(3)
+        name = ("w%02d.dat" % i) if where == 0 else (("sub/w%02d.dat" % i) if where == 1 else ("n%02d.dat" % i))
+        with open(os.path.join(env.tmp if where == 2 else t4, name), "wb") as f:
+            f.write(text)
+        if where == 2:
+            named.append(name)
+    broots = ["t4"] + named
+    if rng.chance(1, 2):
+        rng.shuffle(broots)
+    for bmode in (["--no-heading", "-n"], ["-c"], ["-l"], ["--no-heading", "-n", "--no-mmap"]):
+        bargs = ["--no-config", "--color", "never"] + bmode + ["-e", "needle"]
+        bref = common.run_rg(bargs + ["-j1"] + broots, env.tmp, env.home, timeout=120)
+        for n in rng.sample([2, 3, 4, 8], 2):
+            rep["evaluations"] += 1
+            bgot = common.run_rg(bargs + ["-j%d" % n] + broots, env.tmp, env.home, timeout=120)
+            if bref is None or bgot is None:
+                env.inconclusive("watchdog")
+                continue
+            env.count("rg_runs")
+            env.count("named_and_walked_binary_file_runs")
+            env.nontrivial(("named-and-walked", case["seed"], tuple(bmode), n, bgot[1]))
+            if sorted(bref[1].split(b"\n")) != sorted(bgot[1].split(b"\n")) or bref[0] != bgot[0]:
+                only1 = sorted(set(bref[1].split(b"\n")) - set(bgot[1].split(b"\n")))
+                onlyn = sorted(set(bgot[1].split(b"\n")) - set(bref[1].split(b"\n")))
+                env.viol("C08:named-and-walked-binary-files:lines-differ-from-single-threaded",
+                         "rg %s -j%d %s: status %d vs %d with -j1; only with -j1: %s; only with -j%d: %s"
+                         % (" ".join(bmode), n, " ".join(broots), bgot[0], bref[0],
+                            [esc(x[:60]) for x in only1[:3]], n, [esc(x[:60]) for x in onlyn[:3]]),
+                         {"kind": "cli", "seed": case["seed"], "argv": bargs + ["-j%d" % n] + broots,
+                          "single": esc(bref[1][:1500]), "multi": esc(bgot[1][:1500])})
     env.sample({"files": nfiles, "walk_args": wargs, "roots": len(roots), "pattern": pattern, "modes": [m[0] for m in modes], "threads": threads,
                 "repetitions": reps})
 
